@@ -150,9 +150,17 @@ def main(argv=None):
     ap.add_argument("--replay", default=None)
     a = ap.parse_args(argv)
 
+    try:
+        sys.set_int_max_str_digits(0)
+    except AttributeError:
+        pass
     t0 = time.time()
     res = {"prop": a.prop, "check": a.check, "shard": a.shard, "status": "ok"}
     try:
+        if os.environ.get("PCDVERIF_FORCE_NATIVE"):
+            # make the custom C back-end unimportable so that Numbers.Integer is IntegerNative
+            os.environ["PYCRYPTODOME_DISABLE_GMP"] = "1"
+            sys.modules["Crypto.Math._IntegerCustom"] = None
         ov = os.environ.get("PCDVERIF_OVERLAY")
         if ov:
             import Crypto
